@@ -568,17 +568,36 @@ Definition pbt_on_result (p : pbt_prm) (s : pbt) (i : Z) (r : Q * Q * Z) : pbt *
         else ({| pb_trials := tr1; pb_stack := pb_stack s |}, CONTINUE, None)
   end.
 
-(* _suggest (+ on_trial_add, called by the tuner right after start_trial) *)
-Definition pbt_suggest (s : pbt) (nid : Z) (_ : unit) : pbt * suggestion :=
+(* is trial j marked stopped?  (self._trial_state[j].stopped; an unknown id cannot occur) *)
+Definition pbt_stopped (s : pbt) (j : Z) : bool :=
+  match pbt_find (pb_trials s) j with Some t => pt_stopped t | None => true end.
+
+(* _suggest (+ on_trial_add, called by the tuner right after start_trial).
+   [fixed] = true: the code after "fix: PBT no longer clones from a trial that was
+   stopped after the clone decision": a popped source that has been stopped in the
+   meantime is re-drawn from the CURRENT upper quantile ([choice] = trial drawn by
+   random_state.choice), or a fresh configuration is suggested when there is none.
+   [fixed] = false: the code before that fix (the source is used as it was pushed). *)
+Definition pbt_suggest (fixed : bool) (p : pbt_prm) (s : pbt) (nid : Z) (choice : Z) : pbt * suggestion :=
   let tr := pb_trials s ++ [{| pt_id := nid; pt_score := None; pt_last := 0; pt_stopped := false |}] in
   match pb_stack s with
   | [] => ({| pb_trials := tr; pb_stack := [] |}, SNew)
-  | j :: st => ({| pb_trials := tr; pb_stack := st |}, SFrom j)
+  | j :: st =>
+      if fixed && pbt_stopped s j then
+        match snd (quantiles (pp_qf p) (pb_trials s)) with
+        | [] => ({| pb_trials := tr; pb_stack := st |}, SNew)
+        | u :: upper => ({| pb_trials := tr; pb_stack := st |},
+                         SFrom (if mem_Z choice (u :: upper) then choice else u))
+        end
+      else ({| pb_trials := tr; pb_stack := st |}, SFrom j)
   end.
 
-Definition pbt_sched (p : pbt_prm) : scheduler pbt (Q * Q * Z) unit :=
-  {| on_result := pbt_on_result p; suggest := pbt_suggest;
+Definition pbt_sched_gen (fixed : bool) (p : pbt_prm) : scheduler pbt (Q * Q * Z) Z :=
+  {| on_result := pbt_on_result p; suggest := pbt_suggest fixed p;
      removables := fun s => (s, []); spec_ok := fun _ _ => false |}.
+(* the code as it is (after the fix) / as it was *)
+Definition pbt_sched := pbt_sched_gen true.
+Definition pbt_sched_unfixed := pbt_sched_gen false.
 
 (* ---- checks used by the correspondence driver ---------------------------------- *)
 Definition trace_eqb (a b : list event) : bool := list_eqb event_eqb a b.
